@@ -12,7 +12,7 @@ RULE = ("seeded designs whose derived-level tables are generated as data (total 
         "window and '' at trials before start / skipped by stride; non-trivial = >=1 derived factor and (>=1 sequence returned or "
         "a rejection/refusal expected); distinct = (design skeleton, table class, strategy)")
 ASSUMPTIONS = ["derived-level predicates are tables, so totality/overlap are properties of the data and the reference and the library evaluate the same predicate"]
-BUDGET = {"quick": 40, "thorough": 900}
+BUDGET = {"quick": 300, "thorough": 900}
 RUNS = {"quick": 3000, "thorough": 300000}
 
 
